@@ -549,6 +549,15 @@ T('C10', 'twin-fetchall-via-fetchmany', CU,
 T('C10', 'twin-fetchone-explicit-length', CU,
   "        if self._rows is None or not len(self._rows):", "        if self._rows is None or len(self._rows) == 0:")
 
+M('C11', 'postings-rowid-per-entry', QE,
+  "                for posting in entry.postings:\n                    context.rowid += 1\n", "                context.rowid += 1\n                for posting in entry.postings:\n", ('R-ROWGEN', 'PostingsTable.__iter__'))
+M('C11', 'postings-entry-bound-late', QE,
+  "                context.entry = entry\n                for posting in entry.postings:\n                    context.rowid += 1\n                    context.posting = posting\n                    yield context",
+  "                for posting in entry.postings:\n                    context.rowid += 1\n                    context.posting = posting\n                    yield context\n                context.entry = entry", ('R-ROWGEN', 'PostingsTable.__iter__'))
+T('C11', 'twin-postings-guard-clause', QE,
+  "            if isinstance(entry, data.Transaction):\n                context.entry = entry\n                for posting in entry.postings:\n                    context.rowid += 1\n                    context.posting = posting\n                    yield context",
+  "            if not isinstance(entry, data.Transaction):\n                continue\n            context.entry = entry\n            for posting in entry.postings:\n                context.rowid += 1\n                context.posting = posting\n                yield context")
+
 # ---------------------------------------------------------------------- C12
 R('C12', 'regress-D16-balance-lru-cache', '0ef1053-the-running-balance-is-updated-once-per-row-whatev.diff',
   ('R-ONCEPERROW', 'balance'))
@@ -845,3 +854,30 @@ M('C19', 'print-becomes-legacy-command', SH,
 M('C19', 'numberify-setting-ignored', SH,
   "        if self.settings.numberify:\n            desc, rows = numberify_results(desc, rows, dcontext.build())\n", "", ('R-DISPATCH', 'on_Select'))
 T('C19', 'twin-error-message-reworded', SH, "            self.error('invalid number of arguments')", "            self.error('invalid number of arguments')  # usage")
+
+# ---------------------------------------------------------------------- benign refactorings (selftest/benign/*.diff)
+# Behaviour-preserving patches written by independent agents (notes in selftest/benign/NOTES.md).  Each is a twin for every
+# property whose anchor files it touches: the findings of the tree must not change.
+def _benign_twins():
+    import glob
+    import json
+    import os
+    import re
+    here = os.path.dirname(os.path.abspath(__file__))
+    anchors = {}
+    with open(os.path.join(os.path.dirname(here), 'properties.jsonl'), encoding='utf-8') as f:
+        for line in f:
+            if line.strip():
+                d = json.loads(line)
+                anchors[d['id']] = set(d['anchors']['files'])
+    claimed = {m['prop'] for m in MUTANTS}
+    for path in sorted(glob.glob(os.path.join(here, 'benign', '*.diff'))):
+        with open(path, encoding='utf-8') as f:
+            touched = set(re.findall(r'^\+\+\+ b/(\S+)', f.read(), flags=re.M))
+        base = os.path.basename(path)
+        for prop in sorted(claimed):
+            if anchors.get(prop, set()) & touched:
+                MUTANTS.append({'prop': prop, 'name': f'twin-benign-{base[:-5]}', 'patch': 'benign/' + base, 'twin': True})
+
+
+_benign_twins()
